@@ -23,6 +23,11 @@ CLAIMS["C10"] = ("recursion-depth dataflow over the decoders' static call cycles
  "Trusted: go/ssa + go/types + CHA resolution of the parser packages' own interfaces; refmt tokenizers terminate and bound themselves; datamodel.Node implementations honour the node contract. Not covered: the allocation inequality itself, implicit panics (index/nil/reflect), termination over cyclic user data.",
  "DESIGN.md section 3, C10")
 
+CLAIMS["C05"] = ("SSA value provenance on Store/ComputeLink/choosers + field/global write effects",
+ "Structural necessary conditions of 'links are a function of value and prototype': Store and ComputeLink derive the link identically (encoder and hasher chosen from the prototype parameter in this activation, writer reaches that hasher, link = lp.BuildLink(H.Sum()), committed link = returned link); registry choosers keyed only by the given link/prototype; load-side choosers asked about the requested link; storage keyed by lnk.Binary() on both sides; no operational LinkSystem method or chooser writes LinkSystem fields or globals. Not codec determinism, not BuildLink arithmetic.",
+ "Trusted: go/ssa + go/types, hash.Hash and io.MultiWriter semantics, purity of Registry lookups (C20). Not covered: codec determinism (C02/C04), BuildLink truncation/version arithmetic, equality of loaded and stored node.",
+ "DESIGN.md section 3, C05")
+
 NOT_APPLICABLE = {
  "C13": "concerns the output of running the code generator on arbitrary schemas and the run-time equivalence of two engines; the generator's logic lives in text/template strings, so no typed program exists to analyse before execution (DESIGN.md section 4)",
 }
